@@ -509,6 +509,11 @@ class Polarity(Interp):
             # idiom: count == len(collection) where count is a sum of 0/1 votes of that collection:
             # count <= len, hence equality is the monotone test count >= len
             for x, xn, yn in ((a, node.left, node.comparators[0]), (b, node.comparators[0], node.left)):
+                if isinstance(yn, ast.Name):
+                    # a local that names the length: `n = len(collection)` (its only definition)
+                    defs_ = [s_.value for s_ in ast.walk(self.fi.node) if isinstance(s_, ast.Assign) and any(isinstance(t_, ast.Name) and t_.id == yn.id for t_ in s_.targets)]
+                    if len(defs_) == 1 and yn.id not in self.fi.params:
+                        yn = defs_[0]
                 if call_name(yn) == "len" and is_nonneg(x.sign) and not x.is_const:
                     self.idioms.append(f"`{unparse(node)[:60]}`: vote count == len(...) read as >=")
                     return mk(x.poldict(), "nonneg")
